@@ -720,5 +720,8 @@ PROPS["C16"]["explanation"] += " (FALLBACK) the SD open path falls back on the o
 PROPS["C10"]["rules"] = PROPS["C10"]["rules"] + [rules_attr.rule_retype_refused_before_change]
 PROPS["C10"]["explanation"] += " (RETYPEFIRST) SDIgetcoordvar refuses a wider type for written scale values before it re-types the variable."
 
+PROPS["C07"]["rules"] = PROPS["C07"]["rules"] + [rules_loops.rule_read_list_required]
+PROPS["C07"]["explanation"] += " (READLIST) VSread tests that fields have been selected for reading before the loops that run over the read list."
+
 NOT_APPLICABLE = {}
 
